@@ -134,6 +134,34 @@ def gen_conn():
         hb.append(int(m.group(1)))
     body += "/-- sizes of the `char h[N]` buffers of `_conn_sm_handle_stanza` and `_handle_features_sasl` -/\n"
     body += "def smHBufSizes : List Nat := [%s]\n" % ", ".join(map(str, hb))
+    # the XEP-0198 counters themselves: 32-bit fields, plain (wrapping) increments, printed unsigned.
+    # What happens at 2^31 and 2^32 stanzas is beyond any differential run, so these statements are
+    # translated and pinned (C04.pin_sent_counter, C05.pin_counters) to what the model does
+    # (`UInt32`, `+ 1`, decimal of the unsigned value).
+    common = strip_comments(src("common.h"))
+    bits = []
+    for f in ("sm_handled_nr", "sm_sent_nr"):
+        m = re.search(r"\buint(\d+)_t\s+%s\s*;" % f, common)
+        bits.append(int(m.group(1)) if m else 0)
+    hs = re.sub(r"\s+", "", fn_body(conn, "_conn_sm_handle_stanza"))
+    handled_incr = bool(re.search(r"if\(ns&&strcmp\(ns,XMPP_NS_SM\)!=0\)\{?(\+\+conn->sm_state->sm_handled_nr|"
+                                  r"conn->sm_state->sm_handled_nr\+\+|conn->sm_state->sm_handled_nr\+=1);\}?else", hs))
+    ev = re.sub(r"\s+", "", fn_body(strip_comments(src("event.c")), "xmpp_run_once"))
+    sent_incr = bool(re.search(r"(\w+)->sm_h=conn->sm_state->sm_sent_nr;(conn->sm_state->sm_sent_nr\+\+|"
+                               r"\+\+conn->sm_state->sm_sent_nr|conn->sm_state->sm_sent_nr\+=1);", ev))
+    fmts = []
+    for text, fn in ((conn, "_conn_sm_handle_stanza"), (auth, "_handle_features_sasl")):
+        m = re.search(r'strophe_snprintf\s*\(\s*h\s*,\s*sizeof\s*\(\s*h\s*\)\s*,\s*"([^"]*)"\s*,\s*'
+                      r'conn->sm_state->sm_handled_nr\s*\)', fn_body(text, fn))
+        fmts.append(m.group(1) if m else "?")
+    body += "/-- widths of the fields `sm_handled_nr`, `sm_sent_nr` (common.h) -/\n"
+    body += "def smCounterBits : List Nat := [%s]\n" % ", ".join(map(str, bits))
+    body += "/-- `_conn_sm_handle_stanza` counts with a plain increment under `ns && strcmp(ns, XMPP_NS_SM) != 0` -/\n"
+    body += "def smHandledPlainIncr : Bool := %s\n" % ("true" if handled_incr else "false")
+    body += "/-- `xmpp_run_once` numbers a written stanza with `sm_sent_nr` and then increments it, plainly -/\n"
+    body += "def smSentPlainIncr : Bool := %s\n" % ("true" if sent_incr else "false")
+    body += "/-- conversion used to print the inbound count into `<a h=…/>` and `<resume h=…/>` -/\n"
+    body += "def smHFormats : List String := [%s]\n" % ", ".join('"%s"' % f.replace("\\", "\\\\") for f in fmts)
     body += "\nend Strophe.Gen\n"
     write("Conn", body)
     if soft is not None:
